@@ -95,6 +95,5 @@ func ReadMods(message *plugin.Message) ([]modinfo.Mod, error) {
 		}
 		mods = append(mods, mod)
 	}
-	message.Data = buf.Bytes() // left data bytes
 	return mods, nil
 }
